@@ -128,7 +128,7 @@ func (h *harness) concCase(r *rng, name string, nops int) {
 		fmu.Unlock()
 	}
 	var checks, closedErrs int64
-	var closed int32        // Close has returned
+	var closed int32 // Close has returned
 	var startedAtClose []int64
 	guard := func(what string) {
 		if e := recover(); e != nil {
